@@ -5,6 +5,8 @@ package key
 
 import (
 	"crypto"
+	_ "crypto/sha256" // register SHA-256
+	_ "crypto/sha512" // register SHA-384, SHA-512
 	"fmt"
 
 	"github.com/ldclabs/cose/iana"
